@@ -8,11 +8,16 @@
   restated under the property's name, together with kernel-checked examples that reproduce what was
   observed on the real code (probe runs, and the harness's key sweep on every `./check C09`).
 
-  Finding F12: below a pointer key type an array type may be uncomparable, and then
-  `mapstructure.decodeArray` panics (`decodePanics`).  `Evaluate` panics with it; the no-panic theorems
-  of `Props/C09.lean` therefore carry the hypothesis `GetNoPanic`.  Core Lean only.
+  Finding F12 (repaired in /repo by 240ca2a): below a pointer key type an array type may be
+  uncomparable, and then `mapstructure.decodeArray` panics (`decodePanics`; `pointerstructure.Get`
+  still does, `GetErr.panic`).  `getValue` now walks through `safeGet`, which recovers the panic and
+  returns it as the lookup error: `evaluate_recovers_walk_panic`; the parent walk of
+  `evaluateNotPresent`, which is NOT guarded, cannot panic where it is reached
+  (`parent_walk_no_panic`).  The no-panic theorems of `Props/C09.lean` hold for every well-formed
+  datum again, now without an `unmodelled` blind spot at the key types.  Core Lean only.
 -/
 import Proofs.Keys
+import Proofs.SpecLemmas
 import Props.C09
 
 namespace Bexpr.Props.C09Keys
@@ -73,6 +78,54 @@ theorem getMap_ptr_never_found (part : GoString) (e : GoType) (es : List (GoVal 
       intro x _
       simp [fkeyEq, keyEq, unboxKey, keyEqV_fresh_ptr]
     simp [this]
+
+/-! ## The repaired evaluator: a panic inside the walk is the lookup error -/
+
+/-- `Get` panics on every non-empty path from a map whose key type makes the decoder panic, under
+    every hook configuration (the key is coerced before anything else happens) -/
+theorem get_panics (cfg : Config) (p : GoString) (ps : List GoString) (n : String) (kt vt : GoType)
+    (nl : Bool) (es : List (GoVal × GoVal)) (hk : decodePanics kt = true) :
+    Go.get cfg (p :: ps) (some (.map n kt vt nl es)) = .error .panic := by
+  have hm : getMap p kt es = .error .panic := (Proofs.Keys.getMap_panic_iff p kt es).2 hk
+  simp [Go.get, getLoop, getStep, valueOf, unwrapForStep, unwrapIfaceV, unwrapPtrV, hm,
+    getStep.applyHook]
+
+/-- `safeGet`: whatever the options (unknown value configured or not), a panicking walk is the
+    ordinary lookup error — not the absent-key path, not the unknown value -/
+theorem getValue_recovers_walk_panic (o : Opts) (d : Any) (path p : List GoString)
+    (hp : resolveLocals o.locals.reverse path = .ok (.inr p))
+    (hg : Go.get o.cfg p d = .error .panic) : getValue o d path = .error := by
+  simp [getValue, hp, hg]
+
+/-- **`evaluate_recovers_walk_panic`**: on a datum that is a map with a `decodePanics` key type
+    (`map[*[1][]int]V` …) every match expression and every quantifier whose selector steps into it
+    evaluates to `(false, error)` — `Out.err false` — for every operator, literal, hook and unknown
+    value; `Evaluate` does not panic (before 240ca2a it did: finding F12). -/
+theorem evaluate_recovers_walk_panic (re : RegexOracle) (o : Opts) (hl : o.locals = [])
+    (ty : SelType) (p : GoString) (ps : List GoString) (n : String) (kt vt : GoType) (nl : Bool)
+    (es : List (GoVal × GoVal)) (hk : decodePanics kt = true) :
+    (∀ op raw, evaluate re (.match_ ⟨ty, p :: ps⟩ op raw) o (some (.map n kt vt nl es)) = .err false) ∧
+    (∀ cop b inner,
+      evaluate re (.coll cop ⟨ty, p :: ps⟩ b inner) o (some (.map n kt vt nl es)) = .err false) := by
+  have hg : getValue o (some (.map n kt vt nl es)) (p :: ps) = .error :=
+    getValue_recovers_walk_panic o _ _ (p :: ps) (by simp [hl, resolveLocals])
+      (get_panics o.cfg p ps n kt vt nl es hk)
+  exact ⟨fun op raw => by simp [evaluate, evaluateMatch, hg],
+    fun cop b inner => by simp [evaluate, hg]⟩
+
+/-- The parent walk of `evaluateNotPresent` calls `ptr.Get` unguarded.  It is reached only after the
+    full walk answered ErrNotFound, and then the walk of the path without its last part — a prefix
+    of the steps already taken — cannot panic (nor fail in any other way than the full walk did). -/
+theorem parent_walk_no_panic (cfg : Config) (parts : List GoString) (d : Any)
+    (h : Go.get cfg parts d = .error .notFound) :
+    Go.get cfg parts.dropLast d ≠ .error .panic := by
+  intro hp
+  have hne : parts ≠ [] := by
+    intro h0; subst h0; simp [Go.get] at h
+  have hsplit : parts = parts.dropLast ++ [parts.getLast hne] :=
+    (List.dropLast_concat_getLast hne).symm
+  rw [hsplit, Proofs.SpecLemmas.get_append, hp] at h
+  cases h
 
 /-! ## Kernel-checked examples: the observations on the real code
 
@@ -142,13 +195,30 @@ example : (GoVal.map "" (.other .interface "error") intT false
   decide
 example : (GoVal.map "" (.slice "" intT) intT true []).wf = false := by decide
 
-/-- `Evaluate` on `map[string]interface{}{"m": map[*[1][]int]int{}}` with `m.a == 1`: the model
-    panics, as the real code does (F12) — `GetNoPanic` is not superfluous in `C09.evaluate_no_panic` -/
+/-- `Evaluate` on `map[string]interface{}{"m": map[*[1][]int]int{}}` with `m.a == 1`:
+    `pointerstructure.Get` panics (first line), the evaluator returns `(false, error)` (repaired F12;
+    before 240ca2a: a panic), also with an unknown value configured, and for a quantifier -/
 def f12 : Any := some (.map "" GoType.stringT .iface false
   [(.str "" [109], .iface (some (.map "" (.ptr (.array 1 (.slice "" intT))) intT false [])))])
+def f12map : GoVal := .map "" (.ptr (.array 1 (.slice "" intT))) intT false []
 example : Any.wf f12 = true := by decide
+example : Go.get C09.Examples.opts0.cfg [[109], [97]] f12 = .error .panic := by rfl
 example : evaluate C09.Examples.re0 (.match_ ⟨.bexpr, [[109], [97]]⟩ .equal (some [49]))
-    C09.Examples.opts0 f12 = .panic := by decide
+    C09.Examples.opts0 f12 = .err false := by decide
+example : evaluate C09.Examples.re0 (.match_ ⟨.bexpr, [[109], [97]]⟩ .notEqual (some [49]))
+    { C09.Examples.opts0 with unknown := some (some (i 1)) } f12 = .err false := by decide
+example : evaluate C09.Examples.re0
+    (.coll .any ⟨.bexpr, [[109], [97]]⟩ { mode := .default, default := [118] }
+      (.match_ ⟨.bexpr, [[118]]⟩ .isEmpty none)) C09.Examples.opts0 f12 = .err false := by decide
+/-- the theorem instantiated on `map[*[1][]int]int{}` itself -/
+example : evaluate C09.Examples.re0 (.match_ ⟨.bexpr, [[97]]⟩ .equal (some [49]))
+    C09.Examples.opts0 (some f12map) = .err false :=
+  (evaluate_recovers_walk_panic _ _ rfl .bexpr [97] [] "" (.ptr (.array 1 (.slice "" intT))) intT
+    false [] (by decide)).1 _ _
+/-- … and `C09.evaluate_no_panic` covers this datum (no exclusion) -/
+example : evaluate C09.Examples.re0 (.match_ ⟨.bexpr, [[109], [97]]⟩ .equal (some [49]))
+    C09.Examples.opts0 f12 ≠ .panic :=
+  C09.evaluate_no_panic _ _ _ _ (by decide) (by decide) C09.Examples.opts0_wf
 
 end Examples
 
@@ -160,3 +230,7 @@ end Bexpr.Props.C09Keys
 #print axioms Bexpr.Props.C09Keys.getMap_panic_iff
 #print axioms Bexpr.Props.C09Keys.get_ne_unmodelled
 #print axioms Bexpr.Props.C09Keys.getMap_ptr_never_found
+#print axioms Bexpr.Props.C09Keys.get_panics
+#print axioms Bexpr.Props.C09Keys.getValue_recovers_walk_panic
+#print axioms Bexpr.Props.C09Keys.evaluate_recovers_walk_panic
+#print axioms Bexpr.Props.C09Keys.parent_walk_no_panic
